@@ -478,3 +478,7 @@ CLAUSES = [
     Clause("C03.realign_kron", realign_kron_cases, realign_kron_check,
            doc="R(A (x) B) = vec(A) vec(B)^T on prime-filled factors; Frobenius norm and entry multiset preserved"),
 ]
+
+# every toqito call of this property is repeated with column-major copies of its array arguments (engine.call, layout twin)
+for _c in CLAUSES:
+    _c.layout_twin = True
